@@ -193,6 +193,20 @@ func (fr *Frame) eval(e *Expr, env *Env, st *State, old *State) *Val {
 				return term(u.loadAddr(st, a), el)
 			}
 		}
+		// a counting loop (`for i := 0; i < n; i++`) that has become a range loop: the old counter at the loop head is
+		// the number of completed iterations, i.e. the range index + 1
+		if env.at != nil && fr.loopBody[env.at] != nil {
+			if base := fr.u.eng.baseLocals[fnKey(fr.fn)]; base != nil && strings.HasPrefix(base[e.name], "val|*ssa.Phi|int|") {
+				if _, still := fr.renamedValue(e.name); still == "" || true {
+					if idx, ok := env.vars["idx"]; ok {
+						if rv, _ := fr.renamedValue(e.name); rv == nil || fr.vals[rv] == nil {
+							u.note("loop counter " + e.name + " of " + fnKey(fr.fn) + " no longer exists; the loop is a range loop now: read as range index + 1")
+							return term(fmt.Sprintf("(+ %s 1)", idx.T), types.Typ[types.Int])
+						}
+					}
+				}
+			}
+		}
 		// a local that was renamed since the claims were recorded: found through its structural locator
 		if rv, kind := fr.renamedValue(e.name); rv != nil {
 			if v, ok := fr.vals[rv]; ok && v.K == vTerm {
@@ -1035,6 +1049,37 @@ func (fr *Frame) loopEnv(h *ssa.BasicBlock, pv func(*ssa.Phi) *Val) *Env {
 			env.vars[name] = v
 		}
 		env.vars["$"+p.Name()] = v
+	}
+	// range loops: the key variable `i` of `for i, v := range s` is the range index + 1 computed in the header; in an
+	// invariant (a statement about the loop head) it stands for the number of completed iterations
+	for _, in := range h.Instrs {
+		bo, ok := in.(*ssa.BinOp)
+		if !ok || bo.Op != token.ADD {
+			continue
+		}
+		p, ok := bo.X.(*ssa.Phi)
+		if !ok || p.Comment != "rangeindex" || p.Block() != h {
+			continue
+		}
+		if c, ok := bo.Y.(*ssa.Const); !ok || c.Int64() != 1 {
+			continue
+		}
+		if v := pv(p); v != nil && v.K == vTerm {
+			for name, nv := range fr.nameVals {
+				if nv == ssa.Value(bo) {
+					env.vars[name] = term(fmt.Sprintf("(+ %s 1)", v.T), types.Typ[types.Int])
+				}
+			}
+			for name, cs := range fr.nameCands {
+				for _, c := range cs {
+					if c == ssa.Value(bo) {
+						if _, have := env.vars[name]; !have {
+							env.vars[name] = term(fmt.Sprintf("(+ %s 1)", v.T), types.Typ[types.Int])
+						}
+					}
+				}
+			}
+		}
 	}
 	// names recorded for these phis when the claims were written (survives a rename of the loop variable)
 	if base := fr.u.eng.baseLocals[fnKey(fr.fn)]; base != nil {
